@@ -170,6 +170,9 @@ class G:
     def line(self):
         """one line of inline content that starts and ends with a word"""
         items = [self.text(1)]
+        if self.r.random() < 0.08:
+            # a line that starts with escaped text which, unescaped, would be a list marker, a heading or a quote marker
+            items = [self.r.choice([("1\\.", "1."), ("\\+", "+"), ("12\\)", "12)"), ("\\-", "-"), ("\\*", "*"), ("\\#", "#"), ("\\>", "&gt;"), ("007\\.", "007."), ("123456789\\.", "123456789.")])]
         for _ in range(self.r.randrange(4)):
             items.append(self.inline_item())
         items.append(self.text(1))
